@@ -190,6 +190,8 @@ def run(ctx) -> None:
                               f"arguments looked up in {tree!r}"[:120], "the argument values are looked up inside the call node only")
     from ._matchrules import one_yaml_loader
     one_yaml_loader(ctx, "C13.M6.one-loader-for-every-file")
+    from ._matchrules import macro_files_reach_the_compiler
+    macro_files_reach_the_compiler(ctx, "C13.M7.extra-files-reach-the-compiler")
     # thorough: every way of factoring one part of a base rule into a macro
     if ctx.tier == "thorough":
         from ..treegen import BASES, positions, replace_at
